@@ -1,0 +1,225 @@
+/*!
+Verification hooks. This module only exists when the crate is compiled with `--cfg raindb_verif`
+(see `/verif/DESIGN.md` §3). It contains no logic of its own: a scheduling-point macro, a recorder
+for panics of the background thread and thin `pub` wrappers over crate-private types so that an
+external model checker can drive them.
+*/
+#![allow(missing_docs, missing_debug_implementations)]
+
+/// A named scheduling point for the controlled scheduler. Expands to nothing without the cfg flag.
+#[macro_export]
+macro_rules! verif_point {
+    ($name:expr) => {
+        parking_lot::verif_rt::switch_point($name)
+    };
+}
+
+/// Dropped at the end of the background thread's closure: if the thread is unwinding, the panic
+/// is noted for the harness.
+pub(crate) struct BackgroundPanicRecorder;
+
+impl Drop for BackgroundPanicRecorder {
+    fn drop(&mut self) {
+        if std::thread::panicking() {
+            parking_lot::verif_rt::record_background_panic(
+                "raindb background compaction thread panicked".to_string(),
+            );
+        }
+    }
+}
+
+// ------------------------------------------------------------------------------------------------
+// Thin wrappers over crate-private component types (hook 3).
+// ------------------------------------------------------------------------------------------------
+
+use std::path::Path;
+use std::rc::Rc;
+use std::sync::Arc;
+
+use crate::file_names::FileNameHandler;
+use crate::fs::FileSystem;
+use crate::key::InternalKey;
+use crate::logs::{LogReader, LogWriter};
+use crate::tables::errors::ReadError;
+use crate::tables::{Table, TableBuilder};
+use crate::{DbOptions, Operation, RainDbIterator, ReadOptions};
+
+/// `(user key, sequence number, is_put, value)`
+pub type VerifEntry = (Vec<u8>, u64, bool, Vec<u8>);
+
+pub(crate) fn entry_of(key: &InternalKey, value: &[u8]) -> VerifEntry {
+    (
+        key.get_user_key().to_vec(),
+        key.get_sequence_number(),
+        key.get_operation() == Operation::Put,
+        value.to_vec(),
+    )
+}
+
+fn op_of(is_put: bool) -> Operation {
+    if is_put {
+        Operation::Put
+    } else {
+        Operation::Delete
+    }
+}
+
+/// Wrapper over the crate-private log writer.
+pub struct VerifLogWriter(LogWriter);
+
+impl VerifLogWriter {
+    pub fn new(fs: Arc<dyn FileSystem>, path: &Path, is_appending: bool) -> Result<Self, String> {
+        LogWriter::new(fs, path, is_appending)
+            .map(VerifLogWriter)
+            .map_err(|e| e.to_string())
+    }
+
+    pub fn append(&mut self, data: &[u8]) -> Result<(), String> {
+        self.0.append(data).map_err(|e| e.to_string())
+    }
+}
+
+/// Wrapper over the crate-private log reader.
+pub struct VerifLogReader(LogReader);
+
+impl VerifLogReader {
+    pub fn new(fs: Arc<dyn FileSystem>, path: &Path) -> Result<Self, String> {
+        LogReader::new(fs, path, 0)
+            .map(VerifLogReader)
+            .map_err(|e| e.to_string())
+    }
+
+    /// `Ok(None)` at end of file.
+    pub fn read_record(&mut self) -> Result<Option<Vec<u8>>, String> {
+        match self.0.read_record() {
+            Ok((_, true)) => Ok(None),
+            Ok((record, false)) => Ok(Some(record)),
+            Err(e) => Err(e.to_string()),
+        }
+    }
+}
+
+/// Build table file `file_number` from sorted entries; returns the file size.
+pub fn table_build(options: DbOptions, file_number: u64, entries: &[VerifEntry]) -> Result<u64, String> {
+    let mut builder = TableBuilder::new(options, file_number).map_err(|e| e.to_string())?;
+    for (user_key, seq, is_put, value) in entries {
+        let key = InternalKey::new(user_key.clone(), *seq, op_of(*is_put));
+        builder
+            .add_entry(Rc::new(key), value)
+            .map_err(|e| e.to_string())?;
+    }
+    builder.finalize().map_err(|e| e.to_string())?;
+    Ok(builder.file_size())
+}
+
+/// Three-way answer of a point lookup in one table file.
+#[derive(Debug, Clone, PartialEq, Eq)]
+pub enum VerifGet {
+    Value(Vec<u8>),
+    Deleted,
+    NotInFile,
+    Err(String),
+}
+
+/// Wrapper over the crate-private table reader.
+pub struct VerifTable(pub(crate) Arc<Table>);
+
+pub fn table_open(options: DbOptions, file_number: u64) -> Result<VerifTable, String> {
+    let names = FileNameHandler::new(options.db_path().to_string());
+    let path = names.get_table_file_path(file_number);
+    let file = options
+        .filesystem_provider()
+        .open_file(&path)
+        .map_err(|e| e.to_string())?;
+    Table::open(options, file)
+        .map(|t| VerifTable(Arc::new(t)))
+        .map_err(|e| e.to_string())
+}
+
+impl VerifTable {
+    pub fn get(&self, user_key: &[u8], seq: u64) -> VerifGet {
+        let key = InternalKey::new_for_seeking(user_key.to_vec(), seq);
+        match self.0.get(&ReadOptions::default(), &key) {
+            Ok(Some(v)) => VerifGet::Value(v),
+            Ok(None) => VerifGet::Deleted,
+            Err(ReadError::KeyNotFound) => VerifGet::NotInFile,
+            Err(e) => VerifGet::Err(e.to_string()),
+        }
+    }
+
+    pub fn iter(&self) -> VerifTableIter {
+        VerifTableIter(Box::new(Table::iter_with(
+            Arc::clone(&self.0),
+            ReadOptions::default(),
+        )))
+    }
+
+    /// `None` if the table has no filter block.
+    pub fn filter_may_match(&self, block_offset: u64, user_key: &[u8]) -> Option<bool> {
+        self.0.verif_filter_may_match(block_offset, user_key)
+    }
+
+    /// Every data block: `(offset, size, entries)`.
+    pub fn blocks(&self) -> Result<Vec<(u64, u64, Vec<VerifEntry>)>, String> {
+        self.0.verif_blocks()
+    }
+}
+
+/// Cursor over a table (or any internal-key iterator).
+pub struct VerifTableIter(pub(crate) Box<dyn RainDbIterator<Key = InternalKey, Error = crate::RainDBError>>);
+
+impl VerifTableIter {
+    pub fn is_valid(&self) -> bool {
+        self.0.is_valid()
+    }
+    pub fn seek(&mut self, user_key: &[u8], seq: u64) -> Result<(), String> {
+        let key = InternalKey::new_for_seeking(user_key.to_vec(), seq);
+        self.0.seek(&key).map_err(|e| e.to_string())
+    }
+    pub fn seek_to_first(&mut self) -> Result<(), String> {
+        self.0.seek_to_first().map_err(|e| e.to_string())
+    }
+    pub fn seek_to_last(&mut self) -> Result<(), String> {
+        self.0.seek_to_last().map_err(|e| e.to_string())
+    }
+    pub fn next(&mut self) -> Option<VerifEntry> {
+        self.0.next().map(|(k, v)| entry_of(k, v))
+    }
+    pub fn prev(&mut self) -> Option<VerifEntry> {
+        self.0.prev().map(|(k, v)| entry_of(k, v))
+    }
+    pub fn current(&self) -> Option<VerifEntry> {
+        self.0.current().map(|(k, v)| entry_of(k, v))
+    }
+}
+
+/// Metadata of one table file as the version set sees it.
+#[derive(Debug, Clone, PartialEq, Eq)]
+pub struct VerifFileMeta {
+    pub number: u64,
+    pub size: u64,
+    /// `(user key, sequence, is_put)`
+    pub smallest: (Vec<u8>, u64, bool),
+    pub largest: (Vec<u8>, u64, bool),
+    pub allowed_seeks: i64,
+}
+
+/// Internal state of an open database that is not reachable through the public API.
+#[derive(Debug, Clone, Default)]
+pub struct VerifInfo {
+    pub prev_sequence_number: u64,
+    pub version_wal_number: u64,
+    pub version_prev_wal_number: Option<u64>,
+    pub db_wal_number: u64,
+    pub manifest_number: u64,
+    pub num_versions: usize,
+    pub live_files: Vec<u64>,
+    pub tables_in_use: Vec<u64>,
+    pub has_immutable_memtable: bool,
+    pub background_scheduled: bool,
+    pub bad_state: Option<String>,
+    pub num_snapshots_is_empty: bool,
+    pub memtable_usage: usize,
+    pub memtable_entries: Vec<VerifEntry>,
+    pub immutable_entries: Vec<VerifEntry>,
+}
